@@ -22,7 +22,7 @@ RULE = ("broadband AP contents (random walk + white noise + slow oscillations, n
 ASSUMPTIONS = ["reference low-pass = the converter's own published design (2nd order Butterworth, Wn=0.2 re. AP Nyquist) applied forward-backward to "
                "the WHOLE trace with scipy.signal.sosfiltfilt", "'away from the two file edges' = 50 LF samples (600 AP samples) at either end",
                "1 LSB tolerance: bound < 1 + 1e-3 to absorb the float32 calibration round trip"]
-REQUIRED = {"lf_files_compared": 12, "reruns_same_object": 3, "window_pairs_compared": 6, "sync_columns_compared": 12, "lf_meta_checked": 12, "reference_compared": 12, "int16_wide_contents": 2, "long_cbin_cases": 1}
+REQUIRED = {"lf_files_compared": 12, "reruns_same_object": 3, "window_pairs_compared": 6, "sync_columns_compared": 12, "lf_meta_checked": 12, "reference_compared": 12, "int16_wide_contents": 2, "long_cbin_cases": 1, "calibrated_rate_headers": 1}
 CASE_TIMEOUT = 200.0
 MAX_PROCS = 12
 
@@ -68,10 +68,13 @@ def long_case(case, res, rng, d):
     raw = np.clip(raw + rng.integers(-60, 61, (ns, 384), dtype=np.int32), -8000, 8000).astype(np.int16)
     raw = np.ascontiguousarray(np.c_[raw, G.sync_words(rng, (ns, 1))])
     root = d / "long"
-    b, rec = np2.build(rng, root, kind=kind, ns=ns, gain=gain, sites=sites, raw=raw, claim_ns=ns + delta if delta else None)
+    # the header's sampling rate is the probe's CALIBRATED rate (a fraction of a Hz off nominal), cycled over the long cases of a run
+    fs_hdr = [30000.75, 30000.0, 30000.390639481, 29999.757983][case["seed"] % 4]
+    b, rec = np2.build(rng, root, kind=kind, ns=ns, gain=gain, sites=sites, raw=raw, claim_ns=ns + delta if delta else None, fs=fs_hdr)
+    res.count("calibrated_rate_headers", int(fs_hdr != 30000.0))
     tsec = np2.round_duration(b.with_suffix(".meta"), ns + delta, rec.fs, rng) if rng.random() < 0.7 else None
     b = np2.compress_original(b, rec, chunk_duration=1.0)
-    label = f"{kind} gain={gain[0]}/{gain[1]} ns={ns} (ns % 12 = {ns % 12}) original=cbin, metadata announces {ns + delta} samples" + (f", fileTimeSecs={tsec}" if tsec else "")
+    label = f"{kind} gain={gain[0]}/{gain[1]} ns={ns} (ns % 12 = {ns % 12}) original=cbin imSampRate={fs_hdr}, metadata announces {ns + delta} samples" + (f", fileTimeSecs={tsec}" if tsec else "")
     res.count("long_cbin_cases")
     try:
         conv = neuropixel.NP2Converter(b, post_check=False, compress=False, delete_original=False)
@@ -139,10 +142,12 @@ def run_case(case):
     sos = scipy.signal.butter(N=2, Wn=0.2, btype="lowpass", output="sos")
     ref = scipy.signal.sosfiltfilt(sos, raw[:, :384].astype(np.float64), axis=0)[::12]
     nlf = -(-ns // 12)
+    fs_hdr = float(rng.choice([30000.0, 30000.390639481, 29999.757983, 30000.75]))
+    label0 += f" imSampRate={fs_hdr}"
     outs = {}
     for w in wsel:
         root = d / f"w{w}"
-        b, rec = np2.build(rng, root, kind=kind, ns=ns, gain=gain, sites=sites, raw=raw)
+        b, rec = np2.build(rng, root, kind=kind, ns=ns, gain=gain, sites=sites, raw=raw, fs=fs_hdr)
         label = f"{label0} window={w}"
         if cbin_orig:
             import mtscomp
